@@ -231,6 +231,12 @@ def expected_tuple(m: W.RefMsg, decode_text: bool):
     return ("close", m.code if m.code is not None else 0, m.data.decode("utf-8"), m.wire)
 
 
+HEADER_CLASSES = {
+    "rsv2-3", "reserved-opcode", "rsv1-not-negotiated", "rsv1-on-control", "rsv1-on-continuation", "fragmented-control",
+    "continuation-without-start", "data-frame-in-open-message", "control-too-long",
+}
+
+
 def cls_mechanism(prefix: str, cls: str, fin: bool) -> str:
     if cls.startswith("close-code:") and prefix == "accepted-violation":
         return "accepted-invalid-close-code:" + cls.split(":", 1)[1]
@@ -326,6 +332,10 @@ def judge(S: bytes, cfg, out: Outcome, rec, tag: str = ""):
     if pre.err is None:
         extra = out.msgs[n] if delivered > n else None
         v.append((cls_mechanism("accepted-violation", cls, R.frame_fin), f"reference: frame {R.frame_index} @{R.offset} violates {what}; aiohttp raised nothing at that frame; whole stream: err={err} delivered {delivered} (reference {n}) extra={extra!r:.80}"))
+    elif cls.split(":")[0] in HEADER_CLASSES and (pre.err[0] != "ws" or pre.err[1] == 1007) and (codes is None or pre.err[1] not in codes):
+        # the frame breaks a framing rule that is known from its header, yet the reader went on to process its payload
+        # as a message and failed on the *content* (UTF-8 / inflate): the frame was accepted - same mechanism
+        v.append((cls_mechanism("accepted-violation", cls, R.frame_fin), f"reference: frame {R.frame_index} @{R.offset} violates {what}; aiohttp did not reject the frame but processed its payload and failed on the content: {pre.err} {pre.errmsg!r}"))
     elif len(pre.msgs) != n:
         v.append((cls_mechanism("delivered-with-violation", cls, R.frame_fin), f"violation {what}: aiohttp raised {pre.err} but delivered {len(pre.msgs)} messages, reference {n}"))
     elif codes is not None and pre.err[0] != "ws":
